@@ -13,9 +13,8 @@ UNIT = dict(
     ('R6', 'Module::insert_symbol', dict(pat='self.symbols.push_with_hooks(hooks, symbol);', rep='self.symbols.push(symbol);', count=1)),
     ('R6', 'Module::insert_symbol', dict(pat='hooks: &GcHooks,', rep='', count=1)),
     # R4: Option combinators with closures that capture self
-    ('R4', 'Module::get_symbol_by_name', dict(pat=r'self\s*\.symbols_by_name\s*\.get\(&name\)\s*\.map\(\|index\| self\.symbols\[\*index\]\)',
-         rep='match self.symbols_by_name.get(&name) { Some(index) => Some(self.symbols[*index]), None => None }', regex=True, count=1)),
-    ('R4', 'Module::get_exported_symbol_by_name', dict(pat=r'self\.get_symbol_by_name\(name\)\.and_then\(\|symbol\| \{(.*)\}\)',
-         rep=r'match self.get_symbol_by_name(name) { Some(symbol) => {\1}, None => None }', regex=True, count=1)),
+    # R4g: tail Option combinators with closures that capture self -> match
+    ('R4g', 'Module::get_symbol_by_name'),
+    ('R4g', 'Module::get_exported_symbol_by_name'),
   ],
 )
